@@ -171,3 +171,103 @@ theorem crcSpecUp_append (P : BitVec w) (st : BitVec w) (a b : List UInt8) :
   simp only [crcSpecUp, crcSpecFold, BitVec.not_not, List.foldl_append]
 
 end WuffsVerif.StdHash
+
+namespace WuffsVerif.StdHash
+
+/-! ### Checking the regenerated tables cheaply (Nat arithmetic, kernel-accelerated) -/
+
+/-- `bitStep` on naturals -/
+def natBitStep (P x : Nat) : Nat := if x % 2 = 1 then (x / 2) ^^^ P else x / 2
+
+/-- raw entry of a regenerated table -/
+@[inline] def tblNat (t : Array (Array Nat)) (k i : Nat) : Nat := (t.getD k #[]).getD i 0
+
+/-- rows `r, L r, L (L r), …` (`n` of them), `L` = 8 bit steps applied entry-wise -/
+def rowsFrom (P : Nat) (r : List Nat) : Nat → List (List Nat)
+  | 0 => []
+  | n + 1 => r :: rowsFrom P (r.map (iter (natBitStep P) 8)) n
+
+/-- the `n` slicing tables recomputed from the polynomial alone -/
+def specTables (P : Nat) (n : Nat) : List (List Nat) :=
+  rowsFrom P ((List.range 256).map (iter (natBitStep P) 8)) n
+
+/-- the regenerated tables equal the recomputed ones (sequential comparison: cheap in the kernel) -/
+def tablesCheck (t : Array (Array Nat)) (P : Nat) (n : Nat) : Bool :=
+  t.toList.map Array.toList == specTables P n
+
+variable {w : Nat}
+
+theorem toNat_bitStep (P x : BitVec w) : (bitStep P x).toNat = natBitStep P.toNat x.toNat := by
+  unfold bitStep natBitStep
+  have h0 : x.getLsbD 0 = decide (x.toNat % 2 = 1) := by
+    rw [BitVec.getLsbD, Nat.testBit_zero]
+  rw [h0]
+  by_cases h : x.toNat % 2 = 1
+  · simp [h, BitVec.toNat_xor, BitVec.toNat_ushiftRight, Nat.shiftRight_eq_div_pow]
+  · simp [h, BitVec.toNat_ushiftRight, Nat.shiftRight_eq_div_pow]
+
+theorem toNat_iter_bitStep (P : BitVec w) (n : Nat) (x : BitVec w) :
+    (iter (bitStep P) n x).toNat = iter (natBitStep P.toNat) n x.toNat := by
+  induction n generalizing x with
+  | zero => rfl
+  | succ n ih => simp only [iter, ih, toNat_bitStep]
+
+theorem iter_iter8 {α : Type} (f : α → α) (k : Nat) (a : α) : iter (iter f 8) k a = iter f (8 * k) a := by
+  induction k generalizing a with
+  | zero => rfl
+  | succ k ih =>
+    rw [show 8 * (k + 1) = 8 + 8 * k by omega, iter_add f 8 (8 * k)]
+    show iter (iter f 8) k (iter f 8 a) = _
+    exact ih _
+
+theorem rowsFrom_getD (P : Nat) (n : Nat) : ∀ (r : List Nat) (k : Nat), k < n →
+    (rowsFrom P r n).getD k [] = r.map (iter (iter (natBitStep P) 8) k) := by
+  induction n with
+  | zero => intro r k hk; omega
+  | succ n ih =>
+    intro r k hk
+    cases k with
+    | zero => simp [rowsFrom, iter]
+    | succ k =>
+      simp only [rowsFrom, List.getD_cons_succ]
+      rw [ih _ k (by omega), List.map_map]
+      rfl
+
+theorem specTables_entry (P n k i : Nat) (hk : k < n) (hi : i < 256) :
+    ((specTables P n).getD k []).getD i 0 = iter (natBitStep P) (8 * (k + 1)) i := by
+  unfold specTables
+  rw [rowsFrom_getD P n _ k hk, List.map_map]
+  rw [List.getD_eq_getElem?_getD, List.getElem?_map, List.getElem?_range hi]
+  simp only [Option.map_some, Option.getD_some, Function.comp]
+  rw [iter_iter8, show 8 * (k + 1) = 8 + 8 * k by omega, iter_add]
+
+theorem tblNat_of_check (t : Array (Array Nat)) (P n : Nat) (h : tablesCheck t P n = true)
+    (k i : Nat) (hk : k < n) (hi : i < 256) :
+    tblNat t k i = iter (natBitStep P) (8 * (k + 1)) i := by
+  unfold tablesCheck at h
+  have h' := eq_of_beq h
+  rw [← specTables_entry P n k i hk hi, ← h']
+  unfold tblNat
+  have e : (List.map Array.toList t.toList).getD k [] = (t.getD k #[]).toList := by
+    rw [List.getD_eq_getElem?_getD, List.getElem?_map, Array.getElem?_toList, Array.getD_eq_getD_getElem?]
+    cases t[k]? <;> simp
+  rw [e, List.getD_eq_getElem?_getD, Array.getElem?_toList, Array.getD_eq_getD_getElem?]
+
+/-- From the cheap check to `TableOK` for every table. -/
+theorem tableOK_of_check (hw : 8 ≤ w) (t : Array (Array Nat)) (P : BitVec w) (n : Nat)
+    (h : tablesCheck t P.toNat n = true) : ∀ k, k < n → TableOK t P k := by
+  have h256 : (256 : Nat) ≤ 2 ^ w := by
+    calc (256 : Nat) = 2 ^ 8 := rfl
+      _ ≤ 2 ^ w := Nat.pow_le_pow_right (by omega) hw
+  intro k hk i hi
+  unfold tbl
+  have := tblNat_of_check t P.toNat n h k i hk hi
+  unfold tblNat at this
+  rw [this]
+  apply BitVec.eq_of_toNat_eq
+  rw [toNat_iter_bitStep, BitVec.toNat_ofNat, BitVec.toNat_ofNat, Nat.mod_eq_of_lt (a := i) (by omega),
+    Nat.mod_eq_of_lt]
+  rw [← Nat.mod_eq_of_lt (a := i) (b := 2 ^ w) (by omega), ← BitVec.toNat_ofNat, ← toNat_iter_bitStep]
+  exact BitVec.isLt _
+
+end WuffsVerif.StdHash
